@@ -310,7 +310,66 @@ Proof.
   intros _ T. unfold d'. rewrite d_top_run. simpl. now rewrite T.
 Qed.
 
+(* ... and so do the dispatched attributes: the value u's backend had, through the module and through the class *)
+Theorem static_dispatch_frozen_attributes d u h t n :
+  no_rebind h -> is_fun nc n = false -> is_attr nc n = true ->
+  let d' := drun (dnxt d (DStatic u)) h in
+  dout d' (DCall t RMgr n) = DVal (cur (d_sel d) u) /\ dout d' (DCall t RClass n) = DVal (cur (d_sel d) u).
+Proof.
+  intros Hn F A d'. unfold BackendDispatch.dout. simpl.
+  assert (E : d_cls d' n = SStatic (cur (d_sel d) u)).
+  { unfold d'. rewrite d_cls_run; [|assumption]. simpl. rewrite F, A. reflexivity. }
+  rewrite E. simpl. rewrite F. split; reflexivity.
+Qed.
+
 End D.
+
+(* ------------------------------------------------------------ initialize_backend *)
+Section Init.
+Variables (R : rules) (c : cfg) (listed : name -> bool).
+
+(* the name initialize_backend ends up selecting *)
+Definition init_name (env : option name) : name :=
+  match env with Some n => if listed n then n else 0 | None => 0 end.
+
+(* if that name can be loaded, the import succeeds: EVERY thread then sees the instance of that name - the importing
+   thread as its own selection, all others as the shared default -, _default_backend is that name, no context is
+   open; a warning is issued exactly when the environment asked for a name that is not listed *)
+Theorem initialize_ok env t0 :
+  listed 0 = true -> known c (init_name env) = true ->
+  exists s, initialize R c listed env t0 = IOk (match env with Some n => negb (listed n) | None => false end) s /\
+    (forall t, cur s t = Named (init_name env)) /\ shared s = Named (init_name env) /\ dname s = init_name env /\
+    (forall t, tls s t = if Nat.eqb t t0 then Some (Named (init_name env)) else None) /\ (forall t, ctx s t = []).
+Proof.
+  intros L0 K. unfold initialize, init_name in *.
+  set (req := match env with Some n => n | None => 0 end).
+  assert (E : (if listed req then req else 0) = match env with Some n => if listed n then n else 0 | None => 0 end).
+  { unfold req. destruct env; [reflexivity|]. now rewrite L0. }
+  rewrite E. unfold set_backend. simpl. rewrite K. eexists. split.
+  - f_equal. unfold req. destruct env; [reflexivity|]. now rewrite L0.
+  - simpl. repeat split; try reflexivity.
+    intros t. unfold cur, current_backend, upd. simpl. now destruct (Nat.eqb t t0).
+Qed.
+
+(* a listed name that cannot be imported makes `import tensorly` fail (ImportError from load_backend); an unlisted
+   request never does: it falls back to the built-in default *)
+Theorem initialize_fails_iff env t0 :
+  listed 0 = true -> known c 0 = true ->
+  ((exists w, initialize R c listed env t0 = IFail w) <-> known c (init_name env) = false).
+Proof.
+  intros L0 K0. unfold initialize, init_name.
+  set (req := match env with Some n => n | None => 0 end).
+  assert (E : (if listed req then req else 0) = match env with Some n => if listed n then n else 0 | None => 0 end).
+  { unfold req. destruct env; [reflexivity|]. now rewrite L0. }
+  rewrite E. unfold set_backend. simpl.
+  destruct (known c (match env with Some n => if listed n then n else 0 | None => 0 end)) eqn:K; split.
+  - intros [w H]. discriminate.
+  - discriminate.
+  - reflexivity.
+  - intros _. eexists. reflexivity.
+Qed.
+
+End Init.
 
 (* ------------------------------------------------------------ threads that start late *)
 Section Fresh.
